@@ -2,6 +2,7 @@
 from .common import *
 from .codewrite import *
 from .lifecycle import *
+from . import scans
 
 DECIDED = ("the inductive premises of 'restore g_k..g_1 returns every address to its pre-history content': R2.1 in every normal variant of "
            "every public install root the bytes are saved (read of [addr, addr+n)) before the entry is written, at the same address, and the "
@@ -121,12 +122,10 @@ def run(ck, models, tier):
                       "trampoline that has been unmapped."), wh)
             # field order: nothing to check here (C04 R4.5 covers lock-last)
         # ---------------- R2.4 who-may-call = {} for forgetting primitives
-        n_forget = 0
-        for b in tm.facts.fn_bodies():
-            for name, foreign, local, t in tm.facts.callees_of(b):
-                if name in FORGET_FNS or name.startswith("std::mem::ManuallyDrop"):
-                    n_forget += 1
-                    ck.ob("R2.4", "forget-site/%s/%s" % (short(b["path"]), short(name)), tm.target, False,
-                          "%s calls %s: a guard or injector that is forgotten is never restored" % (b["path"], name),
-                          "%s:%d" % (t["span"]["file"], t["span"]["line"]) if t.get("span") else None)
-        ck.ob("R2.4", "no-forget-sites", tm.target, n_forget == 0, "%d call sites of mem::forget / ManuallyDrop / leak / into_raw in the crate" % n_forget)
+        sites = scans.forget_sites(tm.facts)
+        for fn, name, t in sites:
+            ck.ob("R2.4", "forget-site/%s/%s" % (short(fn), short(name)), tm.target, False,
+                  "%s calls %s: a guard or injector that is forgotten is never restored" % (fn, name),
+                  "%s:%d" % (t["span"]["file"], t["span"]["line"]) if t.get("span") else None)
+        ck.ob("R2.4", "no-forget-sites", tm.target, not sites, "%d call sites of mem::forget / ManuallyDrop / leak / into_raw in the crate" % len(sites))
+    scans.control(ck, ck.ws, "R2.4", "forget-or-ManuallyDrop-call", scans.forget_sites, 2)
